@@ -907,7 +907,7 @@ func TestC28(t *testing.T) {
 	vkit.Run(t, vkit.Spec[c28Case]{
 		ID: "C28",
 		Rule: "Two modes in one check. config: files generated from refinery's own metadata (configMeta.yaml/rulesMeta.yaml: valid, near-valid and junk values, YAML mostly, some JSON/TOML); whatever config.NewConfig accepts is exercised as refinery does (all argument-free Config getters by reflection, per-destination lookups, Reload, the marshalling of /query/*rules, every sampler built by sample.SamplerFactory and run on 3 small traces). " +
-			"request: 1-5 mutated requests (truncate, flip, set, insert/overwrite hostile length headers, dup, cut, splice with another format, repeat, JSON type swaps; real gzip/zstd then mutations of the compressed stream; wrong content types/encodings; hostile event-time/samplerate/dataset) on every HTTP route of the incoming and the peer listener and on the gRPC trace, logs, health and unknown methods of a live Router; a quarter of the request cases are HISTORIES in which the environment lookup at the fake Honeycomb's /1/auth fails for one request (401, 500, undecodable body, hang-up) and requests with environment-style keys (same, other, cached, uncached, slow lookup) follow on the same router; 1 in 15 request cases (plus 4 hand-kept replays) belong to the family 'accepted but internally huge' (small on the wire, > 1 MB or > 5 MB as messagepack inside refinery: compressed msgpack strings, JSON number arrays / many numeric fields, OTLP attributes) and end with a shutdown of the SUT that must return with every accepted event forwarded or reported as an error. " +
+			"request: 1-5 mutated requests (truncate, flip, set, insert/overwrite hostile length headers, dup, cut, splice with another format, repeat, JSON type swaps; real gzip/zstd then mutations of the compressed stream; wrong content types/encodings; hostile event-time/samplerate/dataset) on every HTTP route of the incoming and the peer listener and on the gRPC trace, logs, health and unknown methods of a live Router; a quarter of the request cases are HISTORIES in which the environment lookup at the fake Honeycomb's /1/auth fails for one request (401, 500, undecodable body, hang-up) and requests with environment-style keys (same, other, cached, uncached, slow lookup) follow on the same router; 1 in 40 request cases (plus 4 hand-kept replays) belong to the family 'accepted but internally huge' (small on the wire, > 1 MB or > 5 MB as messagepack inside refinery: compressed msgpack strings, JSON number arrays / many numeric fields, OTLP attributes) and end with a shutdown of the SUT that must return with every accepted event forwarded or reported as an error. " +
 			"The refinery side runs in a child process (crashes, os.Exit and CPU spins are observed from outside); a violation is reported only when a brand-new child reproduces it. Hand-kept regression cases of fixed defects carry a tag that is appended to their signatures so a known finding can never mask them. Non-trivial: config mode = validation accepted a file into which the generator had put at least one near-valid/junk value; request mode = at least one request was really mutated (or the process died). Distinct = distinct case JSON.",
 		Assumptions: []string{
 			"a panic or exit during validation/loading itself is outside the statement ('configuration that passes validation'): counted in coverage key validator_panics, not reported as a violation",
